@@ -1,7 +1,7 @@
 """C14 Bound-consistent propagators compute exactly the bounds hull; second call idempotent; affine_eq = one round (PropMC)."""
 import time
 
-from mc import propmc
+from mc import propmc, wide
 from mc.runner import finish
 
 PROP = "C14"
@@ -10,6 +10,7 @@ PROP = "C14"
 def run(tier, seed):
     t0 = time.time()
     acc = propmc.run(PROP, tier, seed)
+    acc.merge(wide.run(PROP, tier, seed))
     calls = acc.c["calls"]
     nt = acc.c["nt_any"] + acc.c["nt_affine_eq_pruned"]
     cov = {
@@ -22,7 +23,10 @@ def run(tier, seed):
                 "non-trivial = distinct input on which the call pruned, failed or answered 'entailed' (for affine_eq: the one-round reference box differs from the input)",
         "exhaustive": True,
         "instances": acc.c["instances"],
-        "bounds": f"tier={tier}: arity<=3-4, 3-5 values per variable, all parameter vectors of the table, all boxes",
+        "bounds": f"tier={tier}: arity<=3-4, 3-5 values per variable, all parameter vectors of the table, all boxes; plus boxes with bounds "
+                  "from a wide alphabet (0, 1, 255, 256, 65535, 65536, +-70000 ...) for alldifferent, linear constraints, max_leq, min_geq "
+                  "against closed-form / Hall-interval references (mc/wide.py)",
+        "wide_domain_calls": acc.c["wide_calls"],
     }
     return finish(PROP, tier, seed, "model_checking", acc, cov,
                   ["relation predicates of mc/contracts.py (written from the documentation)",
@@ -34,6 +38,15 @@ def replay(entry):
     rc = 0
     for w in entry["witnesses"]:
         for _ in range(2):
+            if max(b[1] - b[0] for b in w["box"]) > 1000:  # wide-domain case: closed-form reference, not the truth cube
+                box = tuple(tuple(b) for b in w["box"])
+                st, out, exc = propmc.safe_call(w["type"], box, tuple(w["params"]))
+                ref = wide.reference(w["type"], tuple(w["params"]), box)
+                bad = exc is not None or (st == 0) != (ref is None) or (st != 0 and ref is not None and not all(
+                    o[0] <= r[0] and o[1] >= r[1] for o, r in zip(out, ref))) or (PROP == "C14" and st != 0 and tuple(out) != ref)
+                print("replay (wide):", w["type"], w["params"], w["box"], "->", st, out, exc, "reference", ref)
+                rc = rc or (1 if bad else 0)
+                continue
             acc = propmc.replay_witness(PROP, w)
             print("replay:", w, "->", {k: v["count"] for k, v in acc.viol.items()} or "no violation")
             if acc.viol:
